@@ -10,11 +10,14 @@ package main
 
 import (
 	"bufio"
+	"bytes"
 	"context"
 	"encoding/json"
 	"fmt"
 	"os"
 	"sort"
+	"sync/atomic"
+	"time"
 
 	"github.com/google/uuid"
 	"github.com/synnaxlabs/synnax/pkg/distribution/group"
@@ -27,6 +30,7 @@ import (
 	"github.com/synnaxlabs/x/errors"
 	"github.com/synnaxlabs/x/gorp"
 	"github.com/synnaxlabs/x/graph"
+	"github.com/synnaxlabs/x/kv"
 	"github.com/synnaxlabs/x/kv/memkv"
 	"github.com/synnaxlabs/x/query"
 	"github.com/synnaxlabs/x/validate"
@@ -57,6 +61,8 @@ type tcase struct {
 	ID       int   `json:"id"`
 	Ops      []op  `json:"ops"`
 	Subjects []idj `json:"subjects"`
+	// Scan selects the flavour whose relationship indexes failed to populate at open
+	Scan bool `json:"scan"`
 }
 
 type polj struct {
@@ -98,6 +104,40 @@ type result struct {
 }
 
 const groupAlias = "users-group"
+
+// faultyDB fails the first iterator opened directly against the DB (not through a
+// transaction) over the ontology Relationship table. That iterator is the one the table
+// uses to populate its secondary indexes at open, so the by-To index stays invalid and the
+// ParentsTraverser runs on its raw sequential-scan fallback for the whole case.
+type faultyDB struct {
+	kv.DB
+	failed atomic.Bool
+}
+
+func (f *faultyDB) OpenIterator(opts kv.IteratorOptions) (kv.Iterator, error) {
+	if bytes.Contains(opts.LowerBound, []byte("Relationship")) && f.failed.CompareAndSwap(false, true) {
+		return nil, errors.New("injected I/O error while opening iterator")
+	}
+	return f.DB.OpenIterator(opts)
+}
+
+// openDB returns the gorp DB of a case and, for the scan-fallback flavour, a function that
+// waits until the injected fault has been consumed by the background index population.
+func openDB(scan bool) (*gorp.DB, func()) {
+	if !scan {
+		return gorp.Wrap(memkv.New()), func() {}
+	}
+	f := &faultyDB{DB: memkv.New()}
+	return gorp.Wrap(f), func() {
+		deadline := time.Now().Add(10 * time.Second)
+		for !f.failed.Load() {
+			if time.Now().After(deadline) {
+				panic("relationship index population never opened an iterator")
+			}
+			time.Sleep(200 * time.Microsecond)
+		}
+	}
+}
 
 func class(err error) string {
 	switch {
@@ -210,7 +250,7 @@ func runCase(c tcase) (res result) {
 		}
 	}()
 	ctx := context.Background()
-	db := gorp.Wrap(memkv.New())
+	db, waitFault := openDB(c.Scan)
 	defer func() { _ = db.Close() }()
 	must := func(err error) {
 		if err != nil {
@@ -220,6 +260,7 @@ func runCase(c tcase) (res result) {
 	otg, err := ontology.Open(ctx, ontology.Config{DB: db})
 	must(err)
 	defer func() { _ = otg.Close() }()
+	waitFault()
 	idx, err := search.Open()
 	must(err)
 	defer func() { _ = idx.Close() }()
